@@ -14,6 +14,9 @@ func (w *vpWorld) checkAll(prop, step string) {
 		verifAssert(prop+"/agree", w.agree(), "after "+step+": memory and store disagree")
 	}
 	verifAssert(prop+"/no-lock-held", w.noLockHeld(), "after "+step+": a pod or pool lock is still held")
+	if w.provider != nil && !w.faulted {
+		verifAssert(prop+"/provider-node", w.invProvider(), "after "+step+": an IP of a live bound pod is not assigned to that pod's node at the cloud provider")
+	}
 }
 
 type vpScenarioOpts struct {
@@ -23,6 +26,9 @@ type vpScenarioOpts struct {
 	withProvider bool
 	earlySteps   int
 	lateSteps    int
+	nodes        []string // candidate nodes handed to Filter
+	faults       bool     // one API / provider call fails cleanly at a symbolic position
+	retryBind    bool     // after a failed bind the scheduler filters again and binds on any approved node
 }
 
 // vpReincarnation: bind a pod, end that incarnation (finish and/or delete), handle its events now,
@@ -33,6 +39,12 @@ func vpReincarnation(o vpScenarioOpts) *vpWorld {
 	if err := w.configure(); err != nil {
 		return nil
 	}
+	if len(o.nodes) == 0 {
+		o.nodes = []string{"n1", "n2", "n3"}
+	}
+	if o.faults {
+		w.faultAt = nondetInt(0, 40)
+	}
 	kind := o.kinds[nondetChoice(len(o.kinds))]
 	policy := nondetPick("", "immutable", "never")
 	w.setDeployment(2)
@@ -41,13 +53,24 @@ func vpReincarnation(o vpScenarioOpts) *vpWorld {
 	name := vpPodNameOf(kind, 0)
 	w.createPod(vpMakePod(name, "U1", kind, policy, "", ""))
 	w.syncListers()
-	nodes, err := w.filter(name, "n1", "n2", "n3")
+	nodes, err := w.filter(name, o.nodes...)
 	if err != nil || len(nodes) == 0 {
 		return nil
 	}
 	n1 := nodes[nondetChoice(len(nodes))]
 	if err := w.bind(name, n1); err != nil {
-		return nil
+		w.checkAll(o.prop, "failed first bind")
+		if !o.retryBind {
+			return nil
+		}
+		nodes, err = w.filter(name, o.nodes...)
+		if err != nil || len(nodes) == 0 {
+			return nil
+		}
+		n1 = nodes[nondetChoice(len(nodes))]
+		if err := w.bind(name, n1); err != nil {
+			return nil
+		}
 	}
 	w.checkAll(o.prop, "first bind")
 	w.setRunning(name)
@@ -72,7 +95,7 @@ func vpReincarnation(o vpScenarioOpts) *vpWorld {
 	w.createPod(vpMakePod(name, "U2", kind, policy, "", ""))
 	w.syncListers()
 	reservedBefore := w.reservedFor(vpKeyOf(w.pods[name]))
-	nodes2, err := w.filter(name, "n1", "n2", "n3")
+	nodes2, err := w.filter(name, o.nodes...)
 	w.checkAll(o.prop, "second filter")
 	if err != nil || len(nodes2) == 0 {
 		return w
